@@ -1328,6 +1328,60 @@ fn k_zeroize_probe(sc: &J, r: &R) {
     }
 }
 
+// C17, Debug side: two states of the same shape (same mode constructor, same number of input bytes fed with the same
+// splits, same output position) that differ only in secret data (key / context, input bytes) must render the same
+// `{:?}` and `{:#?}` text, for Hasher, OutputReader and guts::ChunkState.
+fn k_debug_pair(sc: &J, r: &R) {
+    let ma = parse_mode(sc.get("a"));
+    let mb = parse_mode(sc.get("b"));
+    let da = gen_input(sc.get("a").get("input"));
+    let db = gen_input(sc.get("b").get("input"));
+    let mut ha = new_hasher(&ma);
+    let mut hb = new_hasher(&mb);
+    let (mut pa, mut pb) = (0usize, 0usize);
+    for u in sc.arr("updates") {
+        let n = u.as_i128().unwrap_or(0) as usize;
+        let na = n.min(da.len() - pa);
+        let nb = n.min(db.len() - pb);
+        ha.update(&da[pa..pa + na]);
+        hb.update(&db[pb..pb + nb]);
+        pa += na;
+        pb += nb;
+    }
+    let mut diff = String::new();
+    let (a1, b1) = (format!("{:?}", ha), format!("{:?}", hb));
+    let (a2, b2) = (format!("{:#?}", ha), format!("{:#?}", hb));
+    if a1 != b1 || a2 != b2 {
+        diff = format!("Hasher: {} <> {}", a1, b1);
+    }
+    let mut ra = ha.finalize_xof();
+    let mut rb = hb.finalize_xof();
+    let skip = sc.usize("read");
+    let mut buf = vec![0u8; skip];
+    ra.fill(&mut buf);
+    rb.fill(&mut buf);
+    let (a1, b1) = (format!("{:?}", ra), format!("{:?}", rb));
+    let (a2, b2) = (format!("{:#?}", ra), format!("{:#?}", rb));
+    if diff.is_empty() && (a1 != b1 || a2 != b2) {
+        diff = format!("OutputReader: {} <> {}", a1, b1);
+    }
+    {
+        use blake3::guts;
+        let mut ca = guts::ChunkState::new(sc.u64("chunk_counter"));
+        let mut cb = guts::ChunkState::new(sc.u64("chunk_counter"));
+        let n = da.len().min(db.len()).min(1024);
+        ca.update(&da[..n]);
+        cb.update(&db[..n]);
+        let (a1, b1) = (format!("{:?}", ca), format!("{:?}", cb));
+        let (a2, b2) = (format!("{:#?}", ca), format!("{:#?}", cb));
+        if diff.is_empty() && (a1 != b1 || a2 != b2) {
+            diff = format!("guts::ChunkState: {} <> {}", a1, b1);
+        }
+    }
+    set(r, "debug_same", diff.is_empty().to_string());
+    set(r, "debug_diff", esc(&diff));
+}
+
 fn k_info(r: &R) {
     set(r, "hasher_debug", esc(&format!("{:?}", Hasher::new())));
     set(r, "detect", esc(&format!("{:?}", Platform::detect())));
@@ -1418,6 +1472,7 @@ fn main() {
             "info" => k_info(&rec),
             "mmap_special" => k_mmap_special(sc, &rec),
             "zeroize_probe" => k_zeroize_probe(sc, &rec),
+            "debug_pair" => k_debug_pair(sc, &rec),
             k => panic!("driver: unknown kind {:?}", k),
         }));
         CUR_START_MS.store(0, Ordering::SeqCst);
